@@ -1455,7 +1455,10 @@ impl World<Tok> {
         let res = catch(|| self.regs[a].as_ref().unwrap() == self.regs[b].as_ref().unwrap());
         let (_, ra) = self.refs[a].as_ref().unwrap();
         let (_, rb) = self.refs[b].as_ref().unwrap();
-        let want = (ra.nrows, ra.ncols) == (rb.nrows, rb.ncols) && (ra.nrows == 0 || ra.ncols == 0 || ra.rows == rb.rows);
+        // pairwise equality of the elements at equal logical positions, by the element type's own
+        // `==` (a token payload that starts with "nan" is equal to nothing, itself included)
+        let want = (ra.nrows, ra.ncols) == (rb.nrows, rb.ncols)
+            && (ra.nrows == 0 || ra.ncols == 0 || (ra.rows == rb.rows && !ra.rows.iter().flatten().any(|x| x.starts_with("nan"))));
         match res {
             None => { out.oracle_fail(&format!("{op}: comparison panicked")); out.observe("panic"); None }
             Some(v) => {
@@ -1467,6 +1470,29 @@ impl World<Tok> {
                 Some(v)
             }
         }
+    }
+
+    /// `*m.get_mut((i, j))? = <element with the given payload>`
+    pub fn poke(&mut self, out: &mut Out, r: usize, i: usize, j: usize, payload: &str) {
+        let op = format!("poke {r} {i} {j} {payload}");
+        out.announce(&op);
+        let m = self.regs[r].as_mut().unwrap();
+        let res = catch(|| m.get_mut((i, j)).map(|e| { *e = <Tok as Elem>::make(payload.to_string()); }));
+        let (order, mut rf) = self.refs[r].take().unwrap();
+        let valid = i < rf.nrows && j < rf.ncols;
+        if valid { rf.rows[i][j] = payload.to_string(); }
+        self.refs[r] = Some((order, rf));
+        let m = self.regs[r].as_ref().unwrap();
+        let obs = match res {
+            None => "panic".to_string(),
+            Some(Ok(())) => format!("ok | {}", st_str(m)),
+            Some(Err(e)) => format!("err {} | {}", err_name(e), st_str(m)),
+        };
+        if obs.starts_with("ok") != valid {
+            out.oracle_fail(&format!("{op}: expected {}, implementation gave `{obs}`", if valid { "Ok" } else { "Err(IndexOutOfBounds)" }));
+        }
+        out.observe(&obs);
+        self.check_reg(out, r, &op);
     }
 
     pub fn display(&mut self, out: &mut Out, r: usize) -> Option<String> {
